@@ -45,6 +45,7 @@ _PURE_BUILTINS = {
     "tuple": tuple, "list": list, "set": set, "frozenset": frozenset, "dict": dict, "zip": lambda *a: list(zip(*a)),
     "range": lambda *a: list(range(*a)), "enumerate": lambda x, start=0: list(enumerate(x, start)),
     "reversed": lambda x: list(reversed(x)), "any": any, "all": all, "abs": abs, "chr": chr, "ord": ord, "float": float,
+    "divmod": divmod, "round": round, "pow": pow,
 }
 _MATH = {"isfinite", "isinf", "isnan", "log10", "log2", "log", "floor", "ceil", "prod", "sqrt", "copysign", "fabs"}
 _METHODS = {
